@@ -111,7 +111,7 @@ def substOf (kind : Nat) (tbl : List (PStr × PStr)) : Option (PStr → PStr) :=
   else some fun s => (lookupL tbl s).getD [63, 33]
 
 def findSpec (flavour : String) (fmt : String) : Option FmtSpec :=
-  let reg := if flavour == "x" then BS.Gen.xmlRegistry else BS.Gen.htmlRegistry
+  let reg := if flavour == "x" then BS.Gen.Render.xmlRegistry else BS.Gen.Render.htmlRegistry
   let key : Option PStr := if fmt == "none" then none else some (cps fmt)
   (reg.find? (fun e => e.1 == key)).map (·.2)
 
@@ -126,7 +126,7 @@ def tagsOfL : List Node → List Node
   | n :: ns => tagsOf n ++ tagsOfL ns
 end
 
-def ci := BS.Gen.liveClsInfo
+def ci := BS.Gen.Render.liveClsInfo
 
 def renderAll (spec : Bool) (f : Fmt) (root : Node) : String :=
   " | ".intercalate ((tagsOf root).map fun n =>
@@ -145,7 +145,7 @@ def showEv : TEv → String
   | .special c s => s!"P/{codeOf c}/{dots s}"
 
 def trip (f : Fmt) (root : Node) : String :=
-  let p := BS.Gen.livePCfg
+  let p := BS.Gen.Render.livePCfg
   let ds := root.kids
   let evs := emitRL f ds
   let nrm := normaliseL p f ds
